@@ -90,6 +90,7 @@ func (m *CPU) Run(app risc.Application) (int, error) {
 	cycle := 0
 	for {
 		cycle++
+		m.ctx.VerifTick(0, cycle)
 		log.Info(m.ctx, "Cycle %d", cycle)
 		m.decodeBus.Connect(cycle)
 		m.controlBus.Connect(cycle)
@@ -147,6 +148,7 @@ func (m *CPU) Run(app risc.Application) (int, error) {
 			cycle++
 			m.writeBus.Connect(cycle)
 			for !m.areWriteUnitsEmpty() || !m.writeBus.IsEmpty() {
+				m.ctx.VerifTick(1, cycle)
 				for _, wu := range m.writeUnits {
 					_ = wu.Cycle(wuReq{-1})
 				}
@@ -167,6 +169,7 @@ func (m *CPU) Run(app risc.Application) (int, error) {
 			for {
 				isEmpty := true
 				cycle++
+				m.ctx.VerifTick(2, cycle)
 
 				for _, cc := range m.cacheControllers {
 					cc.snoop.Cycle(struct{}{})
@@ -191,6 +194,7 @@ func (m *CPU) Run(app risc.Application) (int, error) {
 				m.writeBus.Connect(cycle + 1)
 				for _, wu := range m.writeUnits {
 					for !wu.isEmpty() || !m.writeBus.IsEmpty() {
+						m.ctx.VerifTick(3, cycle)
 						_ = wu.Cycle(wuReq{sequenceID})
 					}
 				}
@@ -200,6 +204,7 @@ func (m *CPU) Run(app risc.Application) (int, error) {
 			}
 
 			log.Info(m.ctx, "\t️⚠️ Flush to %d", pc/4)
+			m.ctx.VerifEvent(risc.VerifKindFlush, sequenceID, pc, 0)
 			m.flush(pc)
 			cycle += latency.Flush
 			log.Info(m.ctx, "\tRegisters: %v", m.ctx.Registers)
@@ -213,6 +218,7 @@ func (m *CPU) Run(app risc.Application) (int, error) {
 
 	for {
 		cycle++
+		m.ctx.VerifTick(4, cycle)
 		empty := true
 		for _, cc := range m.cacheControllers {
 			if !cc.snoop.IsStart() {
